@@ -131,6 +131,33 @@ def monitors (model : String) (steps : List (String × Obs)) (cancelled : List N
   | some (_, final) =>
     if model = "c03" then
       if foreign ≠ "none" then some s!"SPEC key=wrong-completion {foreign} (a call was completed with something else than its answer or a connection-level error)" else
+      -- a frame whose header cannot be decoded ends the connection there and then (nothing that
+      -- follows on the stream can be attributed to a request any more)
+      match steps.find? (fun (a, o) => a.startsWith "rd:" && (a.splitOn ":").getLast? == some "badhdr" && !o.done) with
+      | some (a, _) => some s!"SPEC key=undecodable-frame-did-not-fail-the-connection event={a}"
+      | none =>
+      -- at every quiescent observation of a failed connection: whatever was handed over so far and
+      -- had not been cancelled by then has its result (a later cancellation does not excuse it)
+      let rec midStranded (hd cx : List Nat) : List (String × Obs) → Option String
+        | [] => none
+        | (a, o) :: rest =>
+          let parts := a.splitOn ":"
+          let k := parts.headD ""
+          let c := (parts.getD 1 "").toNat?
+          let hd' := match c with
+            | some c => if k = "qb" || k = "qd" || k = "qu" || k = "qc" || k = "qbu" then c :: hd else hd
+            | none => hd
+          let cx' := match c with
+            | some c => if k = "cx" then c :: cx else cx
+            | none => cx
+          if o.done && o.gates = 0 && o.blocked = 0 && o.mutexWait = 0 then
+            match hd'.find? (fun c => countOf o c = 0 && !cx'.contains c) with
+            | some c => some s!"SPEC key=stranded call={c} after={a}"
+            | none => midStranded hd' cx' rest
+          else midStranded hd' cx' rest
+      match midStranded [] [] steps with
+      | some v => some v
+      | none =>
       match handed.find? (fun c => countOf final c > 1) with
       | some c => some s!"SPEC key=double-completion call={c}"
       | none =>
@@ -258,7 +285,20 @@ def handle (model : String) : List String → String
           | none => if agrees s o then go s (k + 1) rest else s!"DIFF at={k} event={a} model={obsOfModel s}"
           | some act =>
             match step s act with
-            | none => s!"DIFF at={k} event={a} not enabled in the model (model state before: {obsOfModel s})"
+            | none =>
+              match act with
+              | .queueBatched c =>
+                -- A batched call handed over with its context already done is outside the model's
+                -- environment (QueueBatch's select could choose either way). The harness does it only
+                -- while the batching goroutine is stuck inside a Write, where the hand-over branch is
+                -- not ready: the call is dropped, nothing observable changes (and the per-call monitor
+                -- has checked that it was not answered with a connection-level error).
+                if s.ctxDone.contains c && !s.done && !s.handed.contains c then
+                  let s' := { s with handed := s.handed ++ [c], dropped := s.dropped ++ [c] }
+                  if agrees s' o then go s' (k + 1) rest
+                  else s!"DIFF at={k} event={a} (batched call with a done context) model={obsOfModel s'}"
+                else s!"DIFF at={k} event={a} not enabled in the model (model state before: {obsOfModel s})"
+              | _ => s!"DIFF at={k} event={a} not enabled in the model (model state before: {obsOfModel s})"
             | some s' =>
               if agrees s' o then go s' (k + 1) rest
               else s!"DIFF at={k} event={a} model={obsOfModel s'}"
